@@ -2,7 +2,7 @@
    item stream of Render.v. *)
 From Coq Require Import List NArith ZArith Bool Arith Lia ZifyBool ZifyNat ZifyN.
 From Gen Require Import C19.
-From C19 Require Import Model Wf Util ProofsLex Render.
+From C19 Require Import Model Wf Util ProofsLex Render ProofsNested.
 Import ListNotations.
 Import K.
 Local Open Scope N_scope.
@@ -420,10 +420,191 @@ Section Explain.
   (* ---- subtables ---- *)
   Ltac split_wf H := repeat (apply andb_true_iff in H; destruct H as [H ?]).
 
-  Lemma Lx_subtable : forall s, sub_wf F s = true ->
-    Lx (explain_subtable U F s) (sub_toks U F s) 0 /\ rest_ok (explain_subtable U F s).
+  Lemma adigit_ident_char : forall c, is_adigit c = true -> ident_char U c = true.
   Proof.
-    intros s W. destruct s as [c|cov delta|cov subst|cov repl|cov alts|cov repl|cov adj|cov adj]; [discriminate W|..];
+    intros c H. unfold ident_char, is_udigit. pose proof H as H'. apply is_adigit_spec in H'.
+    assert (L : (c <? 128) = true) by lia. rewrite L, H. apply orb_true_r.
+  Qed.
+
+  (* ---- contextual subtables (GSUB5) ---- *)
+  Lemma LxH_slash : LxH [47] (fun l => [t_slash l]) 0.   Proof. lit. Qed.
+  Lemma LxH_sp_colon : LxH [32; 58] (fun l => [t_colon l]) 0.   Proof. lit. Qed.
+  Lemma LxH_nocls : LxH [32; 58; 58] (fun l => [t_colon l; t_colon l]) 0.   Proof. lit. Qed.
+  Lemma LxH_colon_eq : LxH [58; 32; 61; 32] (fun l => [t_colon l; tk TEqual [61] l]) 0.   Proof. lit. Qed.
+  Lemma LxH_nl_tab : LxH [10; 9] (fun l => [tk TEOL [10] l]) 1.   Proof. lit. Qed.
+  Lemma LxH_comma1 : LxH [44] (fun l => [t_comma l]) 0.   Proof. lit. Qed.
+  Lemma hs_slash : hardsep U 47 = true. Proof. reflexivity. Qed.
+
+  Lemma wf_cname : forall i, wf_name U (cname i) = true.
+  Proof.
+    intros i. unfold cname. cbn. apply forallb_forall. intros c Hc.
+    apply adigit_ident_char. pose proof (digits_all i) as Hd. rewrite forallb_forall in Hd. auto.
+  Qed.
+
+  Lemma LxH_class : forall c, LxH (if c =? 0 then [32; 58; 58] else [32; 58; 99] ++ digits c ++ [58]) (class_toks c) 0.
+  Proof.
+    intros c. unfold class_toks. destruct (c =? 0); [apply LxH_nocls|].
+    change ([32; 58; 99] ++ digits c ++ [58]) with ([32; 58] ++ (cname c ++ [58])).
+    eapply LxH_ext.
+    - apply LxH_app; [apply LxH_sp_colon|].
+      apply Lx_app_LxH; [apply Lx_ident; apply wf_cname|apply LxH_colon|exact hs_colon|discriminate].
+    - intros l. cbn. rewrite !N.add_0_r. reflexivity.
+    - reflexivity.
+  Qed.
+
+  Lemma LxH_class_list : forall cs,
+    LxH (write_class_list cs) (fun l => concat (map (fun x => class_toks x l) cs)) 0.
+  Proof.
+    induction cs as [|c cs IH]; [apply LxH_nil|].
+    unfold write_class_list in *. cbn [map concat]. eapply LxH_ext.
+    - apply LxH_app; [apply LxH_class|exact IH].
+    - intros l. cbn. rewrite !N.add_0_r. reflexivity.
+    - reflexivity.
+  Qed.
+
+  Definition rule_ok (r : list N * actions) : Prop := gids_ok F (fst r) = true.
+
+  Lemma Lx_ctx1 : forall mm first,
+    Forall (fun e => fst e < num_glyphs F /\ gids_ok F (fst (snd e)) = true) mm ->
+    Lx (explain_ctx1 U F mm first) (ctx1_toks U F mm first) 0 /\ rest_ok (explain_ctx1 U F mm first).
+  Proof.
+    induction mm as [|[g [inp acts]] mm IH]; intros first Hm.
+    - split; [apply Lx_nil|exact I].
+    - inversion Hm as [|? ? Hg Hmm]; subst. destruct Hg as [Hg Hi]. cbn [fst snd] in Hg, Hi.
+      destruct (IH false Hmm) as [IH1 IH2]. cbn [explain_ctx1 ctx1_toks]. split.
+      + eapply Lx_ext.
+        * apply (LxH_app_Lx U (if first then [32] else k_comma) (fun l => if first then [] else [t_comma l]) 0);
+            [destruct first; [apply LxH_sp|apply LxH_comma]|].
+          apply Lx_app; [apply (Lx_glyph_list (g :: inp)); unfold gids_ok in *; cbn [forallb];
+                         rewrite Hi; assert (E : (g <? num_glyphs F) = true) by lia; rewrite E; reflexivity
+                        | |reflexivity].
+          apply LxH_app_Lx; [apply LxH_arrow|].
+          apply Lx_app; [apply Lx_nested|exact IH1|exact IH2].
+        * intros l. cbn [app]. rewrite !N.add_0_r. destruct first; reflexivity.
+        * reflexivity.
+      + destruct first; reflexivity.
+  Qed.
+
+  Lemma Lx_ctx2 : forall mm first,
+    Lx (explain_ctx2 mm first) (ctx2_toks mm first) 0 /\ (first = false -> rest_ok (explain_ctx2 mm first)).
+  Proof.
+    induction mm as [|[c [inp acts]] mm IH]; intros first.
+    - split; [apply Lx_nil|intros; exact I].
+    - destruct (IH false) as [IH1 IH2]. specialize (IH2 eq_refl). cbn [explain_ctx2 ctx2_toks]. split.
+      + eapply Lx_ext.
+        * apply (LxH_app_Lx U (if first then [] else [44]) (fun l => if first then [] else [t_comma l]) 0);
+            [destruct first; [apply LxH_nil|apply LxH_comma1]|].
+          apply LxH_app_Lx; [apply LxH_class_list|].
+          apply LxH_app_Lx; [apply LxH_arrow|].
+          apply Lx_app; [apply Lx_nested|exact IH1|exact IH2].
+        * intros l. cbn [app]. rewrite !N.add_0_r. destruct first; reflexivity.
+        * reflexivity.
+      + intros E. subst. reflexivity.
+  Qed.
+
+  Lemma LxH_defcls : forall kw classes i, wf_name U kw = true ->
+    Forall (fun gl => gids_ok F gl = true) classes ->
+    LxH (define_classes U F kw classes i) (defcls_toks U F kw classes i) (N.of_nat (length classes)).
+  Proof.
+    intros kw classes. induction classes as [|gl r IH]; intros i Hk Hc; [apply LxH_nil|].
+    inversion Hc as [|? ? Hg Hr]; subst. cbn [define_classes defcls_toks].
+    change (32 :: kw ++ [32; 58; 99] ++ digits i ++ [58; 32; 61; 32] ++ write_glyph_set U F gl ++ [10; 9] ++ define_classes U F kw r (i + 1))
+      with ([32] ++ (kw ++ ([32; 58] ++ (cname i ++ ([58; 32; 61; 32] ++ (write_glyph_set U F gl ++ ([10; 9] ++ define_classes U F kw r (i + 1)))))))).
+    eapply LxH_ext.
+    - apply LxH_app; [apply LxH_sp|].
+      apply Lx_app_LxH; [apply Lx_ident; exact Hk| |reflexivity|discriminate].
+      apply LxH_app; [apply LxH_sp_colon|].
+      apply Lx_app_LxH; [apply Lx_ident; apply wf_cname| |reflexivity|discriminate].
+      apply LxH_app; [apply LxH_colon_eq|].
+      apply LxH_app; [apply LxH_glyph_set; exact Hg|].
+      apply LxH_app; [apply LxH_nl_tab|apply IH; auto].
+    - intros l. cbn [app]. rewrite !N.add_0_r. unfold gs_toks. cbn [app]. rewrite <- !app_assoc. cbn [app].
+      reflexivity.
+    - cbn [length]. lia.
+  Qed.
+
+  Lemma LxH_sets : forall sets, sets <> [] -> Forall (fun s => gids_ok F s = true) sets ->
+    LxH (join_sets U F sets) (fun l => concat (map (fun s => gs_toks U F s l) sets)) 0.
+  Proof.
+    induction sets as [|s r IH]; intros Hn Hs; [congruence|].
+    inversion Hs as [|? ? H1 H2]; subst. destruct r as [|s' r'].
+    - cbn [join_sets map concat]. eapply LxH_ext; [apply LxH_glyph_set; exact H1| |reflexivity].
+      intros l. rewrite app_nil_r. reflexivity.
+    - change (join_sets U F (s :: s' :: r')) with (write_glyph_set U F s ++ ([32] ++ join_sets U F (s' :: r'))).
+      eapply LxH_ext.
+      + apply LxH_app; [apply LxH_glyph_set; exact H1|].
+        apply LxH_app; [apply LxH_sp|apply IH; [discriminate|exact H2]].
+      + intros l. cbn [map concat app]. rewrite !N.add_0_r. reflexivity.
+      + reflexivity.
+  Qed.
+
+  Lemma flat_rules_forall : forall {B} (P : N -> Prop) (Q : B -> Prop) (keyed : list (N * list B)),
+    Forall (fun p => P (fst p) /\ Forall Q (snd p)) keyed ->
+    Forall (fun e => P (fst e) /\ Q (snd e)) (flat_rules keyed).
+  Proof.
+    intros B P Q keyed H. unfold flat_rules. apply Forall_forall. intros [k x] Hin.
+    apply in_concat in Hin. destruct Hin as (grp & Hg & Hin). apply in_map_iff in Hg.
+    destruct Hg as ([k' xs] & E & Hk). subst grp. apply in_map_iff in Hin. destruct Hin as (y & E & Hy).
+    inversion E; subst. rewrite Forall_forall in H. destruct (H _ Hk) as [A B0]. cbn in *.
+    split; auto. rewrite Forall_forall in B0. auto.
+  Qed.
+
+  Lemma Lx_ctx : forall c, ctx_wf F c = true ->
+    Lx (explain_ctx U F c) (ctx_toks U F c) (ctx_dl c) /\ rest_ok (explain_ctx U F c).
+  Proof.
+    intros c W. destruct c as [cov rules|cov classes rules|input acts]; cbn [ctx_wf] in W; split_wf W;
+      unfold explain_ctx, ctx_toks, ctx_dl.
+    - (* SeqCtx1 *)
+      assert (Hc : Forall (fun g => g < num_glyphs F) cov) by (apply gids_ok_forall; assumption).
+      apply Lx_ctx1.
+      apply (flat_rules_forall (fun g => g < num_glyphs F) (fun r : list N * actions => gids_ok F (fst r) = true)).
+      apply (Forall_combine (fun g => g < num_glyphs F)
+               (fun rs : list (list N * actions) => Forall (fun r => gids_ok F (fst r) = true) rs)); auto.
+      match goal with Hx : forallb _ rules = true |- _ => apply forallb_Forall in Hx;
+        eapply Forall_impl; [|exact Hx] end.
+      cbn. intros rs Hx. apply andb_true_iff in Hx. destruct Hx as [_ Hx]. apply forallb_Forall in Hx.
+      eapply Forall_impl; [|exact Hx]. cbn. intros r Hr. apply andb_true_iff in Hr. tauto.
+    - (* SeqCtx2 *)
+      assert (Hcl : Forall (fun gl => gids_ok F gl = true) classes).
+      { match goal with Hx : forallb _ classes = true |- _ => apply forallb_Forall in Hx;
+          eapply Forall_impl; [|exact Hx] end.
+        cbn. intros a Hx. apply andb_true_iff in Hx. tauto. }
+      destruct (Lx_ctx2 (flat_rules (index_from 0 rules)) true) as [R1 _].
+      assert (Hne : flat_rules (index_from 0 rules) <> []).
+      { match goal with Hx : negb (is_nil (concat rules)) = true |- _ => rename Hx into Hn end.
+        clear - Hn. generalize 0. induction rules as [|rs r IH]; intros i; [discriminate|].
+        cbn [index_from]. unfold flat_rules. cbn [map concat fst snd]. destruct rs as [|x rs'].
+        - cbn [map app]. apply IH. exact Hn.
+        - discriminate. }
+      split.
+      + eapply Lx_ext.
+        * apply LxH_app_Lx; [apply (LxH_defcls k_class classes 1); [reflexivity|exact Hcl]|].
+          apply LxH_app_Lx; [apply LxH_slash|].
+          apply Lx_app; [apply Lx_glyph_list; assumption| |exact hs_slash].
+          apply LxH_app_Lx; [apply LxH_slash|exact R1].
+        * intros l. cbn [app]. rewrite ?N.add_0_r. reflexivity.
+        * lia.
+      + destruct classes; reflexivity.
+    - (* SeqCtx3 *)
+      assert (Hs : Forall (fun s => gids_ok F s = true) input).
+      { match goal with Hx : forallb _ input = true |- _ => apply forallb_Forall in Hx;
+          eapply Forall_impl; [|exact Hx] end.
+        cbn. intros a Hx. apply andb_true_iff in Hx. tauto. }
+      assert (Hn : input <> []) by (destruct input; [discriminate|congruence]).
+      split.
+      + eapply Lx_ext.
+        * apply LxH_app_Lx; [apply LxH_sets; auto|].
+          apply LxH_app_Lx; [apply LxH_arrow|apply Lx_nested].
+        * intros l. cbn [app]. rewrite !N.add_0_r. reflexivity.
+        * reflexivity.
+      + destruct input as [|s r]; [congruence|]. destruct r; reflexivity.
+  Qed.
+
+  Lemma Lx_subtable : forall s, sub_wf F s = true ->
+    Lx (explain_subtable U F s) (sub_toks U F s) (sub_dl s) /\ rest_ok (explain_subtable U F s).
+  Proof.
+    intros s W. destruct s as [c|cov delta|cov subst|cov repl|cov alts|cov repl|cov adj|cov adj];
+      [apply Lx_ctx; exact W|..];
       cbn [sub_wf] in W; split_wf W; unfold explain_subtable, sub_toks; cbv beta iota zeta;
       try (assert (Ha : ascending cov) by (apply ascendingb_spec; assumption));
       try (assert (Hc : Forall (fun g => g < num_glyphs F) cov) by (apply gids_ok_forall; assumption)).
@@ -488,12 +669,6 @@ Section Explain.
   Qed.
 
   (* ---- lookups ---- *)
-  Lemma adigit_ident_char : forall c, is_adigit c = true -> ident_char U c = true.
-  Proof.
-    intros c H. unfold ident_char, is_udigit. pose proof H as H'. apply is_adigit_spec in H'.
-    assert (L : (c <? 128) = true) by lia. rewrite L, H. apply orb_true_r.
-  Qed.
-
   Lemma wf_kw : forall kw n, (kw = k_GSUB \/ kw = k_GPOS) -> wf_name U (kw ++ digits n) = true.
   Proof.
     intros kw n [E|E]; subst; cbn; apply forallb_forall; intros c Hc;
@@ -516,7 +691,7 @@ Section Explain.
     Hypothesis Hhdr : Lx hdr hdrt 0.
 
     Lemma Lx_subs_rest : forall subs, Forall (fun s => sub_wf F s = true) subs ->
-      Lx (explain_subs U F hdr subs false) (subs_toks U F hdrt subs false) (N.of_nat (length subs))
+      Lx (explain_subs U F hdr subs false) (subs_toks U F hdrt subs false) (subs_lines subs)
       /\ rest_ok (explain_subs U F hdr subs false).
     Proof.
       induction subs as [|s r IH]; intros H.
@@ -525,8 +700,8 @@ Section Explain.
         destruct (Lx_subtable s Hs) as [S1 S2]. cbn [explain_subs subs_toks]. split; [|reflexivity].
         eapply Lx_ext.
         + apply LxH_app_Lx; [apply LxH_or|]. apply Lx_app; [exact S1|exact IH1|exact IH2].
-        + intros l. cbn [app]. rewrite !N.add_0_r. reflexivity.
-        + cbn [length]. lia.
+        + intros l. cbn [app]. rewrite ?N.add_0_r. reflexivity.
+        + cbn [subs_lines]. lia.
     Qed.
 
     Lemma Lx_subs_first : forall subs, Forall (fun s => sub_wf F s = true) subs ->
@@ -539,8 +714,8 @@ Section Explain.
         eapply Lx_ext.
         + apply Lx_app; [exact Hhdr| |apply rest_ok_app; [exact S2|exact R2]].
           apply Lx_app; [exact S1|exact R1|exact R2].
-        + intros l. cbn [app]. rewrite !N.add_0_r. reflexivity.
-        + unfold subs_dl. cbn [length]. lia.
+        + intros l. cbn [app]. rewrite ?N.add_0_r. reflexivity.
+        + unfold subs_dl. lia.
     Qed.
   End Subs.
 
@@ -580,6 +755,43 @@ Section Explain.
         apply Lx_app_LxH; [apply Lx_lookup; auto|apply LxH_nl|reflexivity|discriminate].
       + intros l. cbn [gsub_toks]. rewrite <- !app_assoc. cbn [app]. rewrite N.add_assoc. reflexivity.
       + cbn [gsub_dl]. lia.
+  Qed.
+
+  Lemma ctx_lookup_subs : forall lk, ctx_lookup_wf F lk = true ->
+    flags_ok (l_flags lk) = true /\ Forall (fun s => sub_wf F s = true) (l_subs lk).
+  Proof.
+    intros lk H. unfold ctx_lookup_wf in H. split_wf H. split; auto.
+    match goal with Hx : forallb _ (l_subs lk) = true |- _ => apply forallb_Forall in Hx;
+      eapply Forall_impl; [|exact Hx] end.
+    cbn. intros s Hs. destruct s; try discriminate. exact Hs.
+  Qed.
+
+  Lemma gsub5_lookup_subs : forall lk, gsub_lookup_wf5 F lk = true ->
+    flags_ok (l_flags lk) = true /\ Forall (fun s => sub_wf F s = true) (l_subs lk).
+  Proof.
+    intros lk H. unfold gsub_lookup_wf5 in H. apply orb_true_iff in H.
+    destruct H; [apply gsub_lookup_subs|apply ctx_lookup_subs]; auto.
+  Qed.
+
+  Lemma LxH_gsub5 : forall ll, Forall (fun lk => gsub_lookup_wf5 F lk = true) ll ->
+    LxH (M_explain_gsub U F ll) (gsub_toks U F ll) (gsub_dl ll).
+  Proof.
+    induction ll as [|lk r IH]; intros H.
+    - apply LxH_nil.
+    - inversion H as [|? ? Hlk Hr]; subst. destruct (gsub5_lookup_subs lk Hlk) as [Hf Hs].
+      unfold M_explain_gsub. cbn [map concat]. fold (M_explain_gsub U F r).
+      eapply LxH_ext.
+      + apply LxH_app; [|apply IH; exact Hr].
+        apply Lx_app_LxH; [apply Lx_lookup; auto|apply LxH_nl|reflexivity|discriminate].
+      + intros l. cbn [gsub_toks]. rewrite <- !app_assoc. cbn [app]. rewrite N.add_assoc. reflexivity.
+      + cbn [gsub_dl]. lia.
+  Qed.
+
+  Lemma lex_explain_gsub5 : forall ll, Forall (fun lk => gsub_lookup_wf5 F lk = true) ll ->
+    M_lex U (M_explain_gsub U F ll) = gsub_toks U F ll 1 ++ [tk TEOF [] (1 + gsub_dl ll)].
+  Proof.
+    intros ll H. unfold M_lex. rewrite <- (app_nil_r (M_explain_gsub U F ll)).
+    rewrite (LxH_gsub5 ll H 1 []). reflexivity.
   Qed.
 
   Lemma Lx_gpos : forall ll, Forall (fun lk => gpos_lookup_wf F lk = true) ll ->
